@@ -207,6 +207,23 @@ PROPS = {
         ],
         'assumptions': ['pest::Span (2.7.14) is the reference for the bounded part'],
     },
+    'C14': {
+        'level': 'other',
+        'level_text': 'Verus proves only ceil_log10 (the width of the line-number column) for all usize. Everything else in the formatter walks lines().enumerate().peekable() and writes through core::fmt, outside Verus; CBMC on String/format! is intractable. The statement of the property (no panic; correct 1-based numbers and visualised text on the numbered rows; first/last row = line holding the first/last character, the last line at end of input; markers on the display cells of those characters) is checked by bounded exhaustive enumeration through the public Display impls on every string of at most 4 (quick) / 5 (thorough) characters over {LF, CR, TAB, a, wide CJK, 2-byte letter} incl. the empty string, every span and position.',
+        'level_note': 'Default FormatOption only (FormatOption is not nameable outside the crate). unicode_width::width_cjk is the display-cell oracle, as in the code.',
+        'technique': 'Verus contract on ceil_log10; rendering contract checked by bounded exhaustive enumeration on the real code (String/fmt code outside the verifiers)',
+        'verus': ['fmt'],
+        'expanded': False,
+        'kani': [],
+        'native': [
+            ('nb_fmt', 'nb_fmt_span', 'all strings<=4 chars over {LF,CR,TAB,a,中,é} incl. empty x all spans', 'Q'),
+            ('nb_fmt', 'nb_fmt_pos', 'all strings<=4 chars over {LF,CR,TAB,a,中,é} incl. empty x all positions', 'Q'),
+            ('nb_fmt', 'nb_fmt_span', 'all strings<=5 chars x all spans', 't', {'VERIF_NB_L': '5'}),
+            ('nb_fmt', 'nb_fmt_pos', 'all strings<=5 chars x all positions', 't', {'VERIF_NB_L': '5'}),
+        ],
+        'explanation': 'Every (string, span) and (string, position) within the bound is rendered by the real Display impl; the output is parsed and compared with the property statement. One Verus obligation (ceil_log10) is discharged; the rest is bounded.',
+        'assumptions': ['spans across more than five lines are reached only in the thorough tier (L=5 gives at most 6 lines)'],
+    },
     'C15': {
         'level': 'other',
         'level_text': 'Bounded stand-in only (VecDeque / FnMut callback code is outside Verus; token trees are too heavy for CBMC): on every successful parse of 13 content-carrying rules of a generated parser, for all inputs up to 5 characters, pre-order iteration equals the recursive definition with depths, level-order visits every token once level by level, format_as_tree renders the pre-order with four spaces per level and text on leaves, children() are the direct child tokens, spans are nested and ordered.',
@@ -324,5 +341,5 @@ NOT_APPLICABLE = {
     'C16': 'getter code is assembled as TokenStreams by the generator (graph.rs); property is about behaviour of emitted accessors for every grammar — no contract over quote! output is expressible; would be translation validation, a different family (DESIGN.md §6)',
     'C20': 'relation between separate generator runs / separately compiled option combinations; outside any single-function contract (DESIGN.md §6)',
 }
-for _p in ['C10', 'C14']:
+for _p in ['C10']:
     NOT_APPLICABLE.setdefault(_p, 'not built yet in this session (planned in DESIGN.md §5); not claimed until its check exists')
